@@ -7,7 +7,7 @@ advance_front_by, advance_back_by, over_range, len}`) — see `CircBuf/Lemmas/Co
 they are.  These hold on every state (the iterator layer only reads the buffer). -/
 namespace CircBuf
 
-theorem tie_translate_range_bounds (sb eb : Bound) (s : Sys) :
+maybe theorem tie_translate_range_bounds (sb eb : Bound) (s : Sys) :
     Gen.translate_range_bounds sb eb s = translateRange sb eb s := by
   cases sb <;> cases eb <;>
     tie [Gen.translate_range_bounds, translateRange, Bound.startE, Bound.endE, checkedAdd]
@@ -17,23 +17,23 @@ theorem translateRange_state (sb eb : Bound) (s : Sys) : (translateRange sb eb s
   cases sb <;> cases eb <;>
     tieS [translateRange, Bound.startE, Bound.endE, checkedAdd]
 
-theorem tie_iter_empty (s : Sys) : Gen.Iter_empty s = (.ok Iter.empty, s) := rfl
+maybe theorem tie_iter_empty (s : Sys) : Gen.Iter_empty s = (.ok Iter.empty, s) := rfl
 
-theorem tie_iter_advance_front_by (it : Iter) (count : Nat) (s : Sys) :
+maybe theorem tie_iter_advance_front_by (it : Iter) (count : Nat) (s : Sys) :
     Gen.Iter_advance_front_by it count s = Iter.advanceFrontBy it count s := by
   tie [Gen.Iter_advance_front_by, Iter.advanceFrontBy, View.takeTo]
 
-theorem tie_iter_advance_back_by (it : Iter) (count : Nat) (s : Sys) :
+maybe theorem tie_iter_advance_back_by (it : Iter) (count : Nat) (s : Sys) :
     Gen.Iter_advance_back_by it count s = Iter.advanceBackBy it count s := by
   tie [Gen.Iter_advance_back_by, Iter.advanceBackBy, View.takeFrom]
 
-theorem tie_iter_len (it : Iter) (s : Sys) : Gen.Iter_len it s = Iter.len it s := by
+maybe theorem tie_iter_len (it : Iter) (s : Sys) : Gen.Iter_len it s = Iter.len it s := by
   tie [Gen.Iter_len, Iter.len]
 
-theorem tie_iter_new (s : Sys) (h : Inv s.buf) : Gen.Iter_new s = Iter.new s := by
+maybe theorem tie_iter_new (s : Sys) (h : Inv s.buf) : Gen.Iter_new s = Iter.new s := by
   tie2 h [Gen.Iter_new, Iter.new]
 
-theorem tie_iter_over_range (sb eb : Bound) (s : Sys) (h : Inv s.buf) :
+maybe theorem tie_iter_over_range (sb eb : Bound) (s : Sys) (h : Inv s.buf) :
     Gen.Iter_over_range sb eb s = Iter.overRange sb eb s := by
   simp only [Gen.Iter_over_range, Iter.overRange, bind_run, tie_translate_range_bounds sb eb s]
   cases htr : translateRange sb eb s with
